@@ -5,6 +5,8 @@ seed's own property check still reports it on the refactored tree. Output: /veri
 import json, os, re, shutil, subprocess, sys, tempfile, glob
 from concurrent.futures import ThreadPoolExecutor
 refs = sorted(glob.glob('/verif/refactors/*.diff'))
+if len(sys.argv) > 1:
+    refs = [r for r in refs if any(a in r for a in sys.argv[1:])]
 seeds = sorted(d for d in glob.glob('/verif/seeded/*/') if os.path.exists(d + 'meta.json'))
 def files_of(diff):
     return set(re.findall(r'^\+\+\+ b/(\S+)', open(diff).read(), re.M))
